@@ -588,6 +588,35 @@ static void check_mismatch(ctx_t *x, const uint8_t *frag, uint64_t flen, const c
     free(f);
 }
 
+/* the stripe-level validation call over the metadata the query returned (not over raw fragments): clean metadata passes; a
+ * payload mismatch recorded in ANY entry is reported, wherever it stands in the list; the structs were not empty before */
+static void check_stripe_blobs(const char *prop, ctx_t *x, stripe_t *s)
+{
+    int n = s->n;
+    fragment_metadata_t md[32]; char *ptr[32];
+    memset(md, 0x01, sizeof md);                                  /* every byte 1: a stale "mismatch" left by an earlier answer */
+    for (int i = 0; i < n; i++) {
+        int rc = liberasurecode_get_fragment_metadata((char *)s->frag[i], &md[i]); ptr[i] = (char *)&md[i];
+        if (rc != 0 || md[i].chksum_mismatch != 0) { mon_viol(prop, "clean-fragment-reported-bad", "metadata query on fragment %d as encode wrote it (checksum type %d), into a struct that held 01 bytes: rc=%d chksum_mismatch=%d", i, s->frag[i][REF_OFF_CT], rc, md[i].chksum_mismatch); return; }
+    }
+    int vr = liberasurecode_verify_stripe_metadata(x->desc, ptr, n);
+    mon_count("evaluations", 1); mon_count("stripe_checks_over_returned_metadata", 1);
+    if (vr != 0) { mon_viol(prop, "clean-stripe-rejected", "verify_stripe_metadata over the metadata of a freshly encoded stripe returned %d", vr); return; }
+    if (s->frag[0][REF_OFF_CT] != REF_CT_CRC32 || s->flen <= 80) return;
+    uint8_t *d = malloc(s->flen);
+    for (int p = 0; p < n; p += (n > 8 ? 3 : 1)) {
+        memcpy(d, s->frag[p], s->flen); d[80 + (uint64_t)(p * 13) % ctx_payload_size(x, s->flen)] ^= 0x10;
+        fragment_metadata_t keep = md[p];
+        int rc = liberasurecode_get_fragment_metadata((char *)d, &md[p]);
+        vr = liberasurecode_verify_stripe_metadata(x->desc, ptr, n);
+        mon_count("evaluations", 1); mon_count("stripe_checks_over_returned_metadata", 1);
+        if (rc != 0 || !md[p].chksum_mismatch) mon_viol(prop, "mismatch-not-reported", "payload damage in fragment %d not reported by the metadata query (rc %d)", p, rc);
+        else if (vr >= 0) { mon_viol(prop, "stripe-with-mismatch-accepted", "verify_stripe_metadata returned %d although entry %d of %d records a payload checksum mismatch", vr, p, n); md[p] = keep; break; }
+        md[p] = keep;
+    }
+    free(d);
+}
+
 static void run_checksum(void)
 {
     /* legacy CRC function vs bitwise model on random buffers */
@@ -624,6 +653,7 @@ static void run_checksum(void)
                 int n = cfg_n(&c);
                 for (int si = 0; si < x.nstr; si++) {
                     stripe_t *s = &x.st[si]; uint64_t P = ref_payload_size(c.be, c.k, s->len);
+                    if (mon_case("%s|len=%llu|stripe-check-over-returned-metadata", x.ck, (unsigned long long)s->len)) { check_stripe_blobs("C10", &x, s); mon_distinct("nontrivial", mon_hash_u64(s->len, mon_hash_str(x.ck, 1010))); mon_end(); }
                     /* stored checksum of every encoded fragment == model CRC (variant per switch) */
                     if (mon_case("%s|len=%llu|stored-checksums", x.ck, (unsigned long long)s->len)) {
                         for (int f = 0; f < n; f++) {
@@ -839,6 +869,24 @@ static void run_endian(void)
                             }
                             mon_distinct("nontrivial", mon_hash_u64((uint64_t)(f * 8 + v), mon_hash_str(x.ck, s->len + (uint64_t)lm)));
                         }
+                        /* a valid opposite-endian copy of this fragment anywhere in a list that also holds the whole native stripe:
+                         * under forced checks it is left out like any fragment that fails validation and the rest decodes (the
+                         * verdict on a native header does not depend on what preceded it in the list); without forced checks the
+                         * call is refused whatever the position */
+                        if (f == 0 || f == n - 1) {
+                            memcpy(tw, s->frag[f], s->flen); ref_hdr_twin(s->frag[f], tw, lm >= 3 && ref_get32(s->frag[f] + REF_OFF_MCRC) != crc_std(s->frag[f], 59));
+                            for (int pos = 0; pos <= n; pos += (n > 8 ? 3 : 1)) {
+                                char *lst[40]; int cnt = 0;
+                                for (int i = 0; i <= n; i++) { if (i == pos) lst[cnt++] = (char *)tw; if (i < n) lst[cnt++] = (char *)s->frag[i]; }
+                                char *out = NULL; uint64_t ol = 0;
+                                int rc = liberasurecode_decode(x.desc, lst, cnt, s->flen, 1, &out, &ol);
+                                mon_count("evaluations", 1); mon_count("forced_decodes_with_an_opposite_endian_copy_in_the_list", 1);
+                                if (rc != 0 || ol != s->len || memcmp(out, s->data, s->len)) { mon_viol("C11", "mixed-order-list-refused", "forced decode of the whole native stripe plus an opposite-endian copy of fragment %d at list position %d: rc=%d%s", f, pos, rc, rc ? "" : ", wrong bytes"); if (rc == 0) liberasurecode_decode_cleanup(x.desc, out); break; }
+                                liberasurecode_decode_cleanup(x.desc, out);
+                                out = NULL; rc = liberasurecode_decode(x.desc, lst, cnt, s->flen, 0, &out, &ol);
+                                if (rc == 0) { int okb = ol == s->len && !memcmp(out, s->data, s->len); liberasurecode_decode_cleanup(x.desc, out); if (!okb) { mon_viol("C11", "mixed-order-list-wrong-bytes", "decode of a list holding an opposite-endian copy at position %d returned 0 with wrong bytes", pos); break; } }
+                            }
+                        }
                         /* writer-version sweep: stamps on both sides of the 1.2.0 gate (which decides whether the metadata
                          * CRC applies), whose byte-reversed value lies on the other side, each with a good and a stale seal */
                         if (f == 0 || f == n - 1) {
@@ -926,6 +974,8 @@ static void run_validate(void)
         /* checksum-type arguments beyond the enum whose low byte (all the header stores) is a known type: creation accepts
          * them; what such an instance writes still has to validate */
         { EC_BACKEND_LIBERASURECODE_RS_VAND, 3, 2, 2, 0, 256 + CHKSUM_CRC32 }, { EC_BACKEND_FLAT_XOR_HD, 5, 5, 3, 0, 512 + CHKSUM_CRC32 }, { EC_BACKEND_LIBERASURECODE_RS_VAND, 2, 1, 1, 0, 256 + CHKSUM_NONE },
+        /* the third checksum type (recorded in the header, no checksum computed by this library) */
+        { EC_BACKEND_LIBERASURECODE_RS_VAND, 4, 2, 2, 0, CHKSUM_MD5 }, { EC_BACKEND_FLAT_XOR_HD, 6, 6, 4, 0, CHKSUM_MD5 },
     };
     int np = (int)(sizeof pool_q / sizeof pool_q[0]);
     static ctx_t X[20];
@@ -939,6 +989,8 @@ static void run_validate(void)
         ok[i] = ctx_open(&X[i], &c, lens, kinds, 2) == 0;
     }
     long emitted = 0;
+    for (int I = 0; I < np; I++) if (ok[I]) for (int si = 0; si < X[I].nstr; si++)
+        if (mon_case("I=%s|len=%llu|stripe-check-over-returned-metadata", X[I].ck, (unsigned long long)X[I].st[si].len)) { check_stripe_blobs("C12", &X[I], &X[I].st[si]); mon_distinct("nontrivial", mon_hash_u64((uint64_t)si, mon_hash_str(X[I].ck, 1212))); mon_end(); }
     for (int I = 0; I < np; I++) {
         if (!ok[I]) continue;
         inst_t in = { X[I].c.be, X[I].c.k, X[I].c.m, lec_backend_version(X[I].c.be) };
@@ -1044,10 +1096,51 @@ static void run_validate(void)
     for (int i = 0; i < np; i++) if (ok[i] || X[i].desc > 0) ctx_close(&X[i]);
 }
 
+/* The entry points that take no descriptor (metadata query, header check, the exported historical CRC) asked about fragments
+ * BEFORE this process has created any instance - and, in the restarts after a crash, at whatever point the shard resumes: their
+ * verdicts depend on the 80+P bytes alone.  The fragments come from the model (standard and historical seals, native and
+ * opposite-endian), so no library call has happened yet. */
+static void pre_instance_checks(void)
+{
+    if (!mon_case_all("no-instance-yet|descriptor-less-entry-points")) return;
+    cfg_t c = { EC_BACKEND_LIBERASURECODE_RS_VAND, 4, 2, 2, 0, CHKSUM_CRC32 };
+    cfg_use(&c);
+    uint64_t len = 301; uint8_t data[301]; for (int i = 0; i < 301; i++) data[i] = (uint8_t)(i * 37 + 11);
+    uint64_t fl = model_fragment_len(&c, len); uint8_t *fr[6], *tw = malloc(fl);
+    for (int legacy = 0; legacy < 2; legacy++) {
+        for (int f = 0; f < 6; f++) fr[f] = malloc(fl);
+        model_stripe(&c, data, len, legacy, fr);
+        for (int f = 0; f < 6; f++) for (int side = 0; side < 2; side++) {
+            const uint8_t *g = fr[f];
+            if (side) { memcpy(tw, fr[f], fl); ref_hdr_twin(fr[f], tw, legacy); g = tw; }
+            fragment_metadata_t md; memset(&md, 0x77, sizeof md);
+            int rc = liberasurecode_get_fragment_metadata((char *)g, &md), hv = is_invalid_fragment_header((fragment_header_t *)g);
+            mon_count("evaluations", 2); mon_count("queries_before_any_instance", 2);
+            if (rc != 0 || hv != 0 || md.chksum_mismatch || md.idx != (uint32_t)f || md.orig_data_size != len)
+                mon_viol(PROP, "pre-instance-verdict-differs", "before any instance exists: %s-sealed %s fragment %d: query rc=%d header verdict=%d mismatch=%d idx=%u", legacy ? "historical" : "standard", side ? "opposite-endian" : "native", f, rc, hv, md.chksum_mismatch, md.idx);
+            /* damaged metadata under a stored checksum of 0 / of the other variant: refused */
+            uint8_t *d = malloc(fl); memcpy(d, g, fl); d[REF_OFF_ORIG + 1] ^= 0x20; ref_put32(d + REF_OFF_MCRC, f & 1 ? 0 : 0xffffffffu);
+            int rc2 = liberasurecode_get_fragment_metadata((char *)d, &md), hv2 = is_invalid_fragment_header((fragment_header_t *)d);
+            if (!ref_hdr_accept(d) && (rc2 == 0 || hv2 == 0)) mon_viol(PROP, "pre-instance-verdict-differs", "before any instance exists: damaged metadata with stored checksum %s accepted (rc %d, header verdict %d)", f & 1 ? "0" : "ffffffff", rc2, hv2);
+            /* payload damage is reported */
+            memcpy(d, g, fl); d[80 + (f * 7) % (fl - 80)] ^= 0x01;
+            rc2 = liberasurecode_get_fragment_metadata((char *)d, &md);
+            if (rc2 != 0 || !md.chksum_mismatch) mon_viol(PROP, "pre-instance-verdict-differs", "before any instance exists: payload damage in a %s-sealed fragment not reported (rc %d, mismatch %d)", legacy ? "historical" : "standard", rc2, md.chksum_mismatch);
+            free(d);
+        }
+        { uint8_t buf[64]; for (int i = 0; i < 64; i++) buf[i] = (uint8_t)(i * 5 + legacy); if ((uint32_t)liberasurecode_crc32_alt(0, buf, 64) != crc_legacy(buf, 64)) mon_viol(PROP, "pre-instance-verdict-differs", "liberasurecode_crc32_alt differs from the historical CRC model before any instance exists"); }
+        for (int f = 0; f < 6; f++) free(fr[f]);
+    }
+    free(tw);
+    mon_distinct("nontrivial", 424242);
+    mon_end();
+}
+
 int main(int argc, char **argv)
 {
     mon_init(argc, argv);
     LEC_PROP = MO.prop;
+    if (!strcmp(MO.prop, "C09") || !strcmp(MO.prop, "C10") || !strcmp(MO.prop, "C11") || !strcmp(MO.prop, "C12")) pre_instance_checks();     /* before ANY other library call */
     isal_ok = liberasurecode_backend_available(EC_BACKEND_ISA_L_RS_VAND);
     mon_count0("isal_reference_plugin_available", isal_ok);
     lec_env_legacy(0);
